@@ -3,7 +3,6 @@ use fun::syntax::context::Chirality;
 use fun::syntax::program::CheckedProgram;
 use fun::syntax::terms::*;
 use fun::syntax::types::{OptTyped, Ty};
-use printer::Print;
 use serde_json::{Value, json};
 use std::collections::HashSet;
 
@@ -12,7 +11,8 @@ fn limbs(x: i64) -> Value { let u = x as u64; json!([(u & 0xffff), ((u >> 16) & 
 pub struct Ser { pub nodes: Vec<Value>, pub codata: HashSet<String> }
 impl Ser {
     fn push(&mut self, v: Value) -> usize { self.nodes.push(v); self.nodes.len() }
-    fn cod_ty(&self, t: &Ty) -> bool { self.codata.contains(&t.print_to_string(None)) }
+    // codata-ness is decided by the template name (instances may be named by any mangling scheme)
+    fn cod_ty(&self, t: &Ty) -> bool { match t { Ty::Decl { name, .. } => self.codata.contains(name), _ => false } }
     fn cod(&self, t: &Term) -> bool { t.get_type().map(|ty| self.cod_ty(&ty)).unwrap_or(false) }
     fn args(&mut self, a: &fun::syntax::arguments::Arguments) -> Vec<usize> { a.entries.iter().map(|t| self.term(t)).collect() }
     fn clauses(&mut self, cs: &[Clause]) -> Value {
@@ -57,7 +57,8 @@ impl Ser {
 }
 
 pub fn prog_json(p: &CheckedProgram) -> Value {
-    let codata: HashSet<String> = p.codata_types.iter().map(|c| c.name.clone()).collect();
+    let codata: HashSet<String> = p.codata_types.iter()
+        .map(|c| c.name.chars().take_while(|ch| ch.is_alphanumeric() || *ch == '_').collect::<String>()).collect();
     let mut ser = Ser { nodes: vec![], codata };
     let mut defs = vec![];
     for d in &p.defs {
